@@ -259,9 +259,60 @@ def inside_scope():
     return "; ".join(out.values()) if out else None
 
 
+def several_loops():
+    """One wrapper object (a module-level `@timeout(...)` function) serves calls from several event loops, one after another
+    (`asyncio.run` twice in a process): every call gets the function's own outcome / the timeout at its deadline, as in the
+    first loop."""
+    class Boom2(Exception):
+        pass
+    boom = Boom2("x")
+    started = []
+
+    @timeout(1.0)
+    async def value(a):
+        return ("value", a)
+
+    @timeout(1.0)
+    async def fails(a):
+        raise boom
+
+    @timeout(1.0)
+    async def slow(a):
+        started.append(a)
+        try:
+            await asyncio.sleep(5.0)
+        except asyncio.CancelledError:
+            started.append(("cancelled", a))
+            raise
+    for k in range(3):
+        state = {}
+
+        async def main(loop, k=k):
+            for name, fn in (("value", value), ("fails", fails), ("slow", slow)):
+                t0 = loop.time()
+                try:
+                    state[name] = ("ret", await fn(k), loop.time() - t0)
+                except BaseException as e:  # noqa
+                    state[name] = ("exc", e, loop.time() - t0)
+        try:
+            run(main)
+        except Hang as h:
+            return f"event loop #{k + 1} using the wrappers of loop #1: {h}"
+        except BaseException as e:  # noqa
+            return f"event loop #{k + 1} using the wrappers of loop #1: the program ended with {e!r}"
+        want_slow = state.get("slow", (None, None, None))
+        ok = state.get("value") == ("ret", ("value", k), 0) and state.get("fails", (0, 0, 0))[:2] == ("exc", boom) \
+            and want_slow[0] == "exc" and isinstance(want_slow[1], TimeoutError) and want_slow[2] == 1.0 \
+            and k in started and ("cancelled", k) in started
+        if not ok:
+            return (f"the same timeout wrappers called from event loop #{k + 1}: outcomes {state} (function started/cancelled: "
+                    f"{started}); expected the value, the function's exception, and TimeoutError at 1.0 with the function cancelled")
+    return None
+
+
 def search():
     n = 0
-    p = stacked() or inside_scope()
+    p = stacked() or inside_scope() or several_loops()
     if p:
         return 1, dict(problem=p)
     for tmo in (1.0, 5.0):
